@@ -459,7 +459,7 @@ def r2_resolver_totality(corpus: Corpus, rep: Report, tier: str):
 
 
 class PState:
-    __slots__ = ("nulls", "marks", "warns", "taint", "flags", "events", "trail", "empty", "hollow", "unver")
+    __slots__ = ("nulls", "marks", "warns", "taint", "flags", "events", "trail", "empty", "hollow", "unver", "known", "alias")
 
     def __init__(self):
         self.nulls: dict[str, str] = {}
@@ -471,13 +471,16 @@ class PState:
         self.trail: tuple = ()
         self.empty: frozenset = frozenset()  # names bound to the constant ""
         self.hollow: frozenset = frozenset()  # names bound to nodes built from empty text only
+        self.alias: dict = {}  # boolean flag name -> (test expression it was bound to, names the expression reads)
+        self.known: frozenset = frozenset()  # membership tests already decided on this path: (text, truth, names)
         self.unver: frozenset = frozenset()  # names holding the *requested* target id (node["reftargetid"]), not a registry id
 
     def copy(self) -> "PState":
         s = PState()
         s.nulls = dict(self.nulls)
         s.marks, s.warns, s.taint, s.flags, s.events, s.trail = self.marks, self.warns, self.taint, self.flags, self.events, self.trail
-        s.empty, s.hollow, s.unver = self.empty, self.hollow, self.unver
+        s.empty, s.hollow, s.unver, s.known = self.empty, self.hollow, self.unver, self.known
+        s.alias = dict(self.alias)
         return s
 
 
@@ -582,10 +585,49 @@ class Enumerator:
                 return self.is_hollow(child, st)
         return False
 
+    @staticmethod
+    def _membership(t: ast.expr):
+        if isinstance(t, ast.Compare) and len(t.ops) == 1 and isinstance(t.ops[0], (ast.In, ast.NotIn)):
+            text = f"{unparse(t.left)} in {unparse(t.comparators[0])}"
+            names = frozenset(x.id for x in ast.walk(t) if isinstance(x, ast.Name))
+            return text, names, isinstance(t.ops[0], ast.In)
+        return None
+
+    @staticmethod
+    def _forget(s: PState, name: str) -> None:
+        if any(name in k[2] for k in s.known):
+            s.known = frozenset(k for k in s.known if name not in k[2])
+        for a in [a for a, (_, names) in s.alias.items() if a == name or name in names]:
+            del s.alias[a]
+
+    @staticmethod
+    def _subst(t: ast.expr, st: PState) -> ast.expr:
+        """Replace hoisted boolean flags (`found = x in reg` ... `if found:`) by the test they stand for."""
+        if not st.alias or not any(isinstance(x, ast.Name) and x.id in st.alias for x in ast.walk(t)):
+            return t
+        import copy
+
+        class Sub(ast.NodeTransformer):
+            def visit_Name(self, node):
+                if node.id in st.alias and isinstance(node.ctx, ast.Load):
+                    return copy.deepcopy(st.alias[node.id][0])
+                return node
+
+        return Sub().visit(copy.deepcopy(t))
+
     def eval_test(self, t: ast.expr, st: PState) -> set[str]:
+        return self._eval(self._subst(t, st), st)
+
+    def _eval(self, t: ast.expr, st: PState) -> set[str]:
         both = {"T", "F"}
+        mem = self._membership(t)
+        if mem is not None:
+            for text, truth, _ in st.known:
+                if text == mem[0]:
+                    return {"T"} if truth == mem[2] else {"F"}
+            return both
         if isinstance(t, ast.UnaryOp) and isinstance(t.op, ast.Not):
-            r = self.eval_test(t.operand, st)
+            r = self._eval(t.operand, st)
             return {"T" if x == "F" else "F" for x in r}
         if isinstance(t, ast.Name):
             v = st.nulls.get(t.id)
@@ -599,8 +641,11 @@ class Enumerator:
             if isinstance(t.ops[0], ast.IsNot):
                 return {"F"} if v == "none" else {"T"}
             return both
+        if isinstance(t, ast.Compare) and len(t.ops) == 1 and isinstance(t.ops[0], (ast.Eq, ast.NotEq)) and isinstance(t.left, ast.Name) and t.left.id in st.nulls and isinstance(t.comparators[0], ast.Constant) and not t.comparators[0].value and t.comparators[0].value is not None:
+            # `x == ""` / `x == 0` on a lookup result: "some" stands for a real (truthy) answer, None is not equal to ""
+            return {"F"} if isinstance(t.ops[0], ast.Eq) else {"T"}
         if isinstance(t, ast.BoolOp):
-            rs = [self.eval_test(v, st) for v in t.values]
+            rs = [self._eval(v, st) for v in t.values]
             if isinstance(t.op, ast.And):
                 if any(r == {"F"} for r in rs):
                     return {"F"}
@@ -616,6 +661,7 @@ class Enumerator:
     # -- transfer ------------------------------------------------------------------
     def branch_effects(self, st: PState, test: ast.expr, outcome: bool) -> PState:
         s = st
+        test = self._subst(test, st)
         tested = {n.id for n in ast.walk(test) if isinstance(n, ast.Name)} & (s.hollow | s.empty)
         if tested:
             # the code inspects the (possibly empty) text itself: emptiness is no longer a static fact
@@ -623,6 +669,10 @@ class Enumerator:
             s.hollow = s.hollow - tested
             s.empty = s.empty - tested
         for e, pol in facts(test, outcome):
+            mem = self._membership(e)
+            if mem is not None and not any(k[0] == mem[0] for k in s.known):
+                s = s.copy()
+                s.known = s.known | {(mem[0], pol if mem[2] else not pol, mem[1])}
             if isinstance(e, ast.Name) and not pol and e.id in s.unver:
                 s = s.copy()
                 s.unver = s.unver - {e.id}  # a falsy requested id is "no id requested"
@@ -655,6 +705,147 @@ class Enumerator:
                     s.flags = s.flags | {"implicit"}
         return s
 
+    def _bind(self, s: PState, n, targets, val: ast.expr, depth: int = 0) -> list[PState]:
+        """States after binding ``val`` to ``targets``; a conditional expression is a branch."""
+        inner0 = val
+        while isinstance(inner0, ast.Call) and dotted(inner0.func) in ("cast", "typing.cast", "t.cast") and len(inner0.args) == 2:
+            inner0 = inner0.args[1]
+        if isinstance(inner0, ast.IfExp) and depth < 4:
+            res: list[PState] = []
+            for oc in sorted(self.eval_test(inner0.test, s)):
+                s2 = self.branch_effects(s.copy(), inner0.test, oc == "T")
+                res += self._bind(s2.copy(), n, targets, inner0.body if oc == "T" else inner0.orelse, depth + 1)
+            return res
+        outs = [s]
+        for tg in targets:
+            for el in ast.walk(tg):
+                if isinstance(el, ast.Name):
+                    self._forget(s, el.id)
+        tval = self.tainted(val, s)
+        for tg in targets:
+            if isinstance(tg, ast.Name):
+                s.taint = (s.taint | {tg.id}) if tval else (s.taint - {tg.id})
+                s.hollow = (s.hollow | {tg.id}) if self.is_hollow(val, s) else (s.hollow - {tg.id})
+                if self.is_request_id(val, s):
+                    s.unver = s.unver | {tg.id}
+                    s.events = s.events + (("unver-assign", n, False, False),)
+                else:
+                    s.unver = s.unver - {tg.id}
+                s.empty = (s.empty | {tg.id}) if ((isinstance(val, ast.Constant) and val.value == "") or (isinstance(val, ast.Name) and val.id in s.empty)) else (s.empty - {tg.id})
+                inner = val
+                while isinstance(inner, ast.Call) and dotted(inner.func) in ("cast", "typing.cast", "t.cast", "bool") and len(inner.args) in (1, 2):
+                    inner = inner.args[-1]
+                if isinstance(inner, (ast.Compare, ast.BoolOp)) or (isinstance(inner, ast.UnaryOp) and isinstance(inner.op, ast.Not)):
+                    rd = frozenset(x.id for x in ast.walk(inner) if isinstance(x, ast.Name))
+                    if tg.id not in rd and not any(isinstance(x, (ast.Call, ast.NamedExpr)) for x in ast.walk(inner)):
+                        s.alias[tg.id] = (inner, rd)
+                if isinstance(inner, ast.Constant) and inner.value is None:
+                    s.nulls[tg.id] = "none"
+                elif isinstance(inner, ast.Call) and self.is_attempt(inner):
+                    a, b = s, s.copy()
+                    a.nulls[tg.id] = "none"
+                    a.marks = a.marks | {f"null:{tg.id}"}
+                    b.nulls[tg.id] = "some"
+                    b.marks = b.marks - {f"null:{tg.id}"}
+                    outs = [a, b]
+                elif isinstance(inner, ast.Name) and inner.id == tg.id:
+                    pass  # x = x
+                elif isinstance(inner, ast.Name) and inner.id in s.nulls:
+                    s.nulls[tg.id] = s.nulls[inner.id]
+                else:
+                    s.nulls.pop(tg.id, None)
+            elif isinstance(tg, (ast.Tuple, ast.List)):
+                pairwise = isinstance(val, (ast.Tuple, ast.List)) and len(val.elts) == len(tg.elts) and not any(isinstance(x, ast.Starred) for x in list(val.elts) + list(tg.elts))
+                before = s.copy()
+                for el in ast.walk(tg):
+                    if isinstance(el, ast.Name):
+                        s.nulls.pop(el.id, None)
+                        s.taint = (s.taint | {el.id}) if tval else (s.taint - {el.id})
+                        s.empty = s.empty - {el.id}
+                        s.hollow = s.hollow - {el.id}
+                        s.unver = s.unver - {el.id}
+                if pairwise:
+                    for el, v in zip(tg.elts, val.elts):
+                        if isinstance(el, ast.Name) and self.is_request_id(v, before):
+                            s.unver = s.unver | {el.id}
+                            s.events = s.events + (("unver-assign", n, False, False),)
+        return outs
+
+    def _inline_helper(self, s: PState, n, call: ast.Call, callee: FunctionInfo) -> list[PState]:
+        """A private helper that warns on some of its paths only (e.g. an extracted lookup-or-warn block):
+        enumerate the helper's own paths with the caller's facts about its arguments and continue the caller's
+        path once per distinct outcome (failure marks, number of warnings, provenance of the returned values)."""
+        params = callee.params
+        shift = 1 if params and params[0] in ("self", "cls") else 0
+        init = PState()
+        bound: dict[str, ast.expr] = {}
+        for i, a in enumerate(call.args):
+            if isinstance(a, ast.Starred) or i + shift >= len(params):
+                raise Unsupported(f"{self.fi.qualname}: cannot bind the arguments of {callee.qualname}")
+            bound[params[i + shift]] = a
+        for kw in call.keywords:
+            if kw.arg is None or kw.arg not in params:
+                raise Unsupported(f"{self.fi.qualname}: cannot bind the arguments of {callee.qualname}")
+            bound[kw.arg] = kw.value
+        pv = None
+        for pname, a in bound.items():
+            if self.pv is not None and isinstance(a, ast.Name) and a.id == self.pv:
+                pv = pname
+            if self.is_request_id(a, s):
+                init.unver = init.unver | {pname}
+            if isinstance(a, ast.Name) and a.id in s.empty:
+                init.empty = init.empty | {pname}
+            if isinstance(a, ast.Name) and a.id in s.nulls:
+                init.nulls[pname] = s.nulls[a.id]
+        sub_en = Enumerator(self.c, callee, pv, self.sink_names)
+        sub_en.depth = _depth_of(self) + 1
+        # registries handed in as arguments stay registries
+        for pname, a in bound.items():
+            if self.is_registry(a):
+                sub_en.registry_vars.add(pname)
+        ccfg = sub_en.cfg
+        stops = list(ccfg.pred.get(EXIT, []))
+        res = sub_en.paths(ENTRY, stops, init)
+        if not res:
+            raise Unsupported(f"no path through helper {callee.qualname}")
+        outcomes: dict[tuple, PState] = {}
+        for stop, cs in res:
+            if any(e[0] == "replace" for e in cs.events):
+                raise Unsupported(f"helper {callee.qualname} both warns conditionally and replaces the node")
+            ret = stop.value if isinstance(stop, ast.Return) else None
+            if isinstance(ret, ast.Tuple):
+                flags = tuple((sub_en.is_request_id(e, cs), (isinstance(e, ast.Constant) and e.value == "") or (isinstance(e, ast.Name) and e.id in cs.empty)) for e in ret.elts)
+            elif ret is not None:
+                flags = ((sub_en.is_request_id(ret, cs), False),)
+            else:
+                flags = ()
+            outcomes.setdefault((cs.marks, len(cs.warns), flags), cs)
+        outs: list[PState] = []
+        targets = (n.targets if isinstance(n, ast.Assign) else [n.target]) if isinstance(n, (ast.Assign, ast.AnnAssign)) else []
+        tval = self.tainted(call, s)
+        for (marks, nw, flags), cs in outcomes.items():
+            o = s.copy()
+            o.marks = o.marks | marks
+            o.warns = o.warns + cs.warns
+            for tg in targets:
+                els = [tg] if isinstance(tg, ast.Name) else (list(tg.elts) if isinstance(tg, (ast.Tuple, ast.List)) else [])
+                for i, el in enumerate(els):
+                    if not isinstance(el, ast.Name):
+                        continue
+                    self._forget(o, el.id)
+                    o.nulls.pop(el.id, None)
+                    o.hollow = o.hollow - {el.id}
+                    o.taint = (o.taint | {el.id}) if tval else (o.taint - {el.id})
+                    fl = flags[i] if (len(flags) == len(els) and i < len(flags)) else (False, False)
+                    if fl[0]:
+                        o.unver = o.unver | {el.id}
+                        o.events = o.events + (("unver-assign", n, False, False),)
+                    else:
+                        o.unver = o.unver - {el.id}
+                    o.empty = (o.empty | {el.id}) if fl[1] else (o.empty - {el.id})
+            outs.append(o)
+        return outs
+
     def apply(self, n, st: PState) -> list[PState]:
         """States after executing CFG node ``n`` normally."""
         if not isinstance(n, ast.AST) or isinstance(n, ast.ExceptHandler):
@@ -671,10 +862,25 @@ class Enumerator:
                 callee = self_callee(self.c, self.fi, call)
                 if not (self.pv and param_of_arg(callee, call, self.pv) and callee.fq in _delegates(self.c)):
                     # a helper that warns: summarised (it must warn the same number of times on all its paths)
-                    k = _warn_summary(self.c, callee, set())
+                    try:
+                        k = _warn_summary(self.c, callee, set())
+                    except Unsupported:
+                        whole = isinstance(n, (ast.Assign, ast.AnnAssign, ast.Expr)) and n.value is call
+                        if not whole or in_try or _depth_of(self) >= 2:
+                            raise
+                        return self._inline_helper(s, n, call, callee)
                     if k and in_try:
                         raise Unsupported(f"{self.fi.qualname}: XREF_MISSING warning (via {callee.qualname}) inside a try body")
                     s.warns = s.warns + (call,) * k
+            else:
+                callee = self_callee(self.c, self.fi, call)
+                whole = isinstance(n, (ast.Assign, ast.AnnAssign)) and n.value is call
+                if callee is not None and whole and not in_try and _depth_of(self) < 2 and not callee.is_lambda and any(self.is_request_id(a, s) for a in list(call.args) + [kw.value for kw in call.keywords]):
+                    # a helper that is handed the requested fragment and returns values: follow it
+                    try:
+                        return self._inline_helper(s, n, call, callee)
+                    except Unsupported:
+                        pass
             if self.pv is not None and self.fi.module.resolve(dotted(call.func) or "") == "sphinx.util.nodes.make_refnode":
                 tid = call.args[3] if len(call.args) > 3 and not any(isinstance(a, ast.Starred) for a in call.args[:4]) else next((kw.value for kw in call.keywords if kw.arg == "targetid"), None)
                 if self.is_request_id(tid, s):
@@ -693,47 +899,7 @@ class Enumerator:
         # bindings
         if isinstance(n, (ast.Assign, ast.AnnAssign)) and n.value is not None:
             targets = n.targets if isinstance(n, ast.Assign) else [n.target]
-            val = n.value
-            tval = self.tainted(val, s)
-            for tg in targets:
-                if isinstance(tg, ast.Name):
-                    s.taint = (s.taint | {tg.id}) if tval else (s.taint - {tg.id})
-                    s.hollow = (s.hollow | {tg.id}) if self.is_hollow(val, s) else (s.hollow - {tg.id})
-                    if self.is_request_id(val, s):
-                        s.unver = s.unver | {tg.id}
-                        s.events = s.events + (("unver-assign", n, False, False),)
-                    else:
-                        s.unver = s.unver - {tg.id}
-                    s.empty = (s.empty | {tg.id}) if ((isinstance(val, ast.Constant) and val.value == "") or (isinstance(val, ast.Name) and val.id in s.empty)) else (s.empty - {tg.id})
-                    inner = val
-                    while isinstance(inner, ast.Call) and dotted(inner.func) in ("cast", "typing.cast", "t.cast") and len(inner.args) == 2:
-                        inner = inner.args[1]
-                    if isinstance(inner, ast.Constant) and inner.value is None:
-                        s.nulls[tg.id] = "none"
-                    elif isinstance(inner, ast.Call) and self.is_attempt(inner):
-                        a, b = s, s.copy()
-                        a.nulls[tg.id] = "none"
-                        a.marks = a.marks | {f"null:{tg.id}"}
-                        b.nulls[tg.id] = "some"
-                        b.marks = b.marks - {f"null:{tg.id}"}
-                        outs = [a, b]
-                    else:
-                        s.nulls.pop(tg.id, None)
-                elif isinstance(tg, (ast.Tuple, ast.List)):
-                    pairwise = isinstance(val, (ast.Tuple, ast.List)) and len(val.elts) == len(tg.elts) and not any(isinstance(x, ast.Starred) for x in list(val.elts) + list(tg.elts))
-                    before = s.copy()
-                    for el in ast.walk(tg):
-                        if isinstance(el, ast.Name):
-                            s.nulls.pop(el.id, None)
-                            s.taint = (s.taint | {el.id}) if tval else (s.taint - {el.id})
-                            s.empty = s.empty - {el.id}
-                            s.hollow = s.hollow - {el.id}
-                            s.unver = s.unver - {el.id}
-                    if pairwise:
-                        for el, v in zip(tg.elts, val.elts):
-                            if isinstance(el, ast.Name) and self.is_request_id(v, before):
-                                s.unver = s.unver | {el.id}
-                                s.events = s.events + (("unver-assign", n, False, False),)
+            outs = self._bind(s, n, targets, n.value)
         elif isinstance(n, ast.AugAssign) and isinstance(n.target, ast.Name):
             if self.tainted(n.value, s):
                 s.taint = s.taint | {n.target.id}
@@ -741,6 +907,7 @@ class Enumerator:
             s.empty = s.empty - {n.target.id}
             s.hollow = s.hollow - {n.target.id}
             s.unver = s.unver - {n.target.id}
+            self._forget(s, n.target.id)
         elif isinstance(n, ast.Expr) and isinstance(n.value, ast.Call):
             c = n.value
             if isinstance(c.func, ast.Attribute) and c.func.attr in ("append", "extend", "insert") and isinstance(c.func.value, ast.Name) and c.args:
@@ -751,13 +918,14 @@ class Enumerator:
             for el in ast.walk(n.target):
                 if isinstance(el, ast.Name):
                     s.nulls.pop(el.id, None)
+                    self._forget(s, el.id)
         return outs
 
-    def paths(self, start, stops) -> list[tuple[object, PState]]:
+    def paths(self, start, stops, init: PState | None = None) -> list[tuple[object, PState]]:
         cfg = self.cfg
         stops = set(stops)
         results: list[tuple[object, PState]] = []
-        stack = [(start, PState(), {})]
+        stack = [(start, init or PState(), {})]
         steps = 0
         while stack:
             n, st, visits = stack.pop()
@@ -805,6 +973,10 @@ class Enumerator:
                         o2 = self.branch_effects(o, n.test, sc[0] == "T")
                     stack.append((sc, o2, visits))
         return results
+
+
+def _depth_of(en) -> int:
+    return getattr(en, "depth", 0)
 
 
 def _may_warn_missing(corpus: Corpus, fi: FunctionInfo, seen: set) -> bool:
@@ -1930,4 +2102,8 @@ def mutants(corpus: Corpus):
         add("c12-reference-fragment-dropped-inline", "C12.R5", sx, kv[0].value, 'destination.partition("#")[0]', expect="whole destination")
     else:
         out.append(("c12-reference-fragment-dropped", "non-doc pending_xref constructor not found"))
+    # class "optional attribute read without its presence test" (statement- or expression-level guard dropped)
+    f = rf.func("MystReferenceResolver._resolve_myst_ref_intersphinx")
+    t = find_node(f, lambda n: isinstance(n, ast.Compare) and isinstance(n.ops[0], ast.In) and isinstance(n.left, ast.Constant) and n.left.value == "reftitle")
+    add("c12-reftitle-read-unguarded", "C12.R5", rf, t, 'node.get("refexplicit")', expect="sets reftitle")
     return out
